@@ -211,7 +211,7 @@ pub fn main(tier: Tier, replay: Option<String>) -> i32 {
         }
     }
     let alpha = syms(&["1", "ア", "x"], &["2", "〇", "一", "十", ",", ".", "ァ", "カ", "タ", "東", "万", "ー", "ナ", "千", "二", "0"]);
-    let bounds = tier.pick(TreeBounds { full_len: 3, ext_len: 6, max_special: 2 }, TreeBounds { full_len: 5, ext_len: 8, max_special: 3 });
+    let bounds = tier.pick(TreeBounds { full_len: 3, ext_len: 6, max_special: 2 }, TreeBounds { full_len: 4, ext_len: 7, max_special: 2 });
     let b = bounds.to_json();
     let jobs = vec![job(
         MergeSpace { label: "W-merge/texts".into(), plain, variants, alpha, bounds, modes: vec![Mode::C, Mode::A] },
